@@ -115,6 +115,32 @@ def run(tier="quick", root="/repo", evidence_dir=None, quiet=False):
         "(validated or documented by the constructors)",
     ])
     repo = get_repo(root)
+    # (g) first: the function evaluated over a symbolic grid (E10) decides the clauses that the structural rules a, b, d argue
+    # for from the shape of the code; when it has decided them, what those rules report is kept as a note
+    from gridlint import transform_grid
+    nv, nf = len(rep.violations), len(rep.failed_floors)
+    rep.attempt(transform_grid.rule_assembly_evaluated, rep, repo)
+    g_ok = len(rep.violations) == nv and len(rep.failed_floors) == nf
+    try:
+        return _structural(rep, repo, g_ok, evidence_dir, quiet)
+    except AnalysisError as e:
+        if not g_ok:
+            raise
+        rep.note(f"the structural rules did not recognise the idiom ({str(e)[:160]}); the evaluation rule g decided the assembly")
+        rep.extra.update({"source_digest": repo.digest(["rtransform", "basegrid"])})
+        return rep.finish(evidence_dir=evidence_dir, quiet=quiet)
+
+
+def _structural(rep, repo, g_ok, evidence_dir, quiet):
+    _violation = rep.violation
+
+    def violation(rule, construct, role, what, where="", witness=None):
+        if g_ok and rule[:2] in ("a.", "b.", "d."):
+            rep.note(f"structural rule {rule} reported `{what[:160]}`; the evaluation rule g decided the assembly of points, weights "
+                     f"and domain")
+            return
+        _violation(rule, construct, role, what, where, witness)
+    rep.violation = violation
     f = repo.method("BaseTransform", "transform_1d_grid")
     cons = "rtransform.BaseTransform.transform_1d_grid"
     gparam = f.params[1]
@@ -254,18 +280,43 @@ def run(tier="quick", root="/repo", evidence_dir=None, quiet=False):
         return out
     pre = None
     cmp_ = set()
+    pre_line = None
     for s in body:
         if isinstance(s, ast.If) and s.body and isinstance(s.body[-1], ast.Raise):
             pr = show_pairs(s.test, vg)
             if any(f"{gparam}.domain" in a_ + b_ and "self.domain" in a_ + b_ for a_, b_ in pr):
-                pre, cmp_ = s, pr
+                pre, cmp_, pre_line = s, pr, s.lineno
+        # the check delegated to a private method that is called as a statement (`self._check_grid_domain(grid)`)
+        if isinstance(s, ast.Expr) and isinstance(s.value, ast.Call) and isinstance(s.value.func, ast.Attribute) and \
+                norm(s.value.func.value) == "self" and s.value.func.attr.startswith("_"):
+            h = repo.resolve_method("BaseTransform", s.value.func.attr)
+            if h is None:
+                continue
+            hg = e5.VG(repo, "BaseTransform", h.node, inline=False)
+            hp = [p_ for p_ in h.params if p_ not in ("self", "cls")]
+            for p_, a_ in zip(hp, s.value.args):
+                hg.env[p_] = vg.ev(a_)
+            for k_ in s.value.keywords:
+                if k_.arg:
+                    hg.env[k_.arg] = vg.ev(k_.value)
+            for s_ in ast.walk(h.node):
+                if isinstance(s_, ast.Assign):
+                    try:
+                        hg.stmt(s_)
+                    except Exception:  # noqa: BLE001
+                        pass
+            for s_ in ast.walk(h.node):
+                if isinstance(s_, ast.If) and s_.body and isinstance(s_.body[-1], ast.Raise):
+                    pr = show_pairs(s_.test, hg)
+                    if any(f"{gparam}.domain" in a_ + b_ and "self.domain" in a_ + b_ for a_, b_ in pr):
+                        pre, cmp_, pre_line = s_, pr, s.lineno
     t = norm(pre.test) if pre is not None else ""
     lo = (f"{gparam}.domain[0]", "self.domain[0]") in cmp_
     hi = ("self.domain[1]", f"{gparam}.domain[1]") in cmp_
     first_use = min((n.lineno for n in ast.walk(f.node) if isinstance(n, ast.Call) and norm(n.func) in
                      ("self.transform", "self.deriv")), default=10 ** 9)
     if pre is not None and lo and hi and isinstance(pre.test, ast.BoolOp) and isinstance(pre.test.op, ast.Or) \
-            and pre.lineno < first_use:
+            and pre_line < first_use:
         rep.ok("e.domain-precondition", cons, repo.rel("rtransform", pre), t[:100])
     else:
         rep.violation("e.domain-precondition", cons, "precondition",
@@ -317,4 +368,5 @@ def run(tier="quick", root="/repo", evidence_dir=None, quiet=False):
             rep.violation("f.containment-check-armed", "basegrid.OneDGrid.__init__", side,
                           f"OneDGrid no longer rejects points beyond the {side} end of the declared domain", init.loc())
     rep.extra.update({"decreasing_transforms": neg, "source_digest": repo.digest(["rtransform", "basegrid"])})
+    rep.violation = _violation
     return rep.finish(evidence_dir=evidence_dir, quiet=quiet)
